@@ -46,6 +46,7 @@ def worker(args, scratch):
             w.shim.call("event_reader_start", dir=scratch + "/events", interval_ms=1, delay_start=False)
         stop = threading.Event()
         sent = []   # (vid, t_send, t_done)
+        client_auth = {}    # vid -> authorization value the CLIENT put on its request
 
         def client(ci):
             rr = common.rng("c10-client", args["shard"], ci)
@@ -63,6 +64,8 @@ def worker(args, scratch):
                         # the client supplies an authorization header of its own that names a real key id: what the host receives must still be
                         # one header whose id and MAC belong together
                         hs.append(("x-ms-azure-host-authorization", "Azure-HMAC-SHA256 %s %s" % (klist[rr.randrange(len(klist))]["guid"], "ab" * 32)))
+                        with lock:
+                            client_auth[vid] = hs[-1][1].encode()
                         bump("requests_with_a_client_supplied_authorization_header")
                     conn.send(rawhttp.build_request("GET", "/k/%s?a=1&b=2" % vid, hs))
                     resp = conn.read_response()
@@ -117,6 +120,11 @@ def worker(args, scratch):
                     continue
                 verdict, detail = sig.verify(u, keys)
                 kind = "own" if own else "proxied"
+                if not own and verdict != "unsigned" and client_auth.get(vid) is not None and rawhttp.hget(u.headers, b"x-ms-azure-host-authorization") == [client_auth[vid]]:
+                    # not a header the agent emitted: the request went out unsigned (no key at that moment) and the only authorization
+                    # header on it is, byte for byte, the one the client had put there - judged as the unsigned request it is
+                    verdict = "unsigned"
+                    bump("client_header_passed_through_on_unsigned_request")
                 bump("%s:%s" % (kind, verdict))
                 straddle = False
                 if not own and vid in by_id:
